@@ -219,6 +219,17 @@ def contracts(rep, regs, model):
               lambda e: 'format=%r has a component that gs1_128._max_length() does not understand: info()/encode() raise AttributeError for this identifier' % e.props.get('format'))
     per_entry(rep, R['gs1_ai'], 'REG.consumer-shape', lambda e: e.low.isdigit() and e.high.isdigit() and e.low.isascii() and 2 <= e.length <= 4 and e.depth == 0,
               'application identifier is not 2-4 ASCII digits at top level')
+    # gs1_ai: every (format, type) pair has a place in the encoder and the decoder (sibling rules shared with C16)
+    from . import c16
+    sub = c16.new_report(rep.tier, 'C11')
+    c16.analyse(sub)
+    for f in sub.findings:
+        if f.rule in ('C16.type', 'C16.date', 'C16.decimal') and f.file.endswith('gs1_ai.dat'):
+            rep.fail('REG.consumer-gs1-codec', f.file, f.func, f.construct, f.line, f.detail)
+    rep.obligations += sub.counts.get('C16.date', 0) + sub.counts.get('C16.decimal', 0) + sub.counts.get('C16.type', 0)
+    rep.discharged += sub.counts.get('C16.date', 0) + sub.counts.get('C16.decimal', 0) + sub.counts.get('C16.type', 0) - len(
+        [f for f in sub.findings if f.rule in ('C16.type', 'C16.date', 'C16.decimal')])
+    rep.counts['REG.consumer-gs1-codec'] = sub.counts.get('C16.date', 0) + sub.counts.get('C16.decimal', 0) + sub.counts.get('C16.type', 0)
     # imsi: split()/info() unpack mcc, mnc, msin: two registry levels
     anchor(rep, 'stdnum/imsi.py', 'info', ["numdb.get('imsi').info(number)"], 'imsi: MCC and MNC levels')
     per_entry(rep, R['imsi'], 'REG.consumer-shape', lambda e: e.depth <= 1 and e.low.isdigit() and e.high.isdigit() and e.low.isascii() and e.length + (e.parent.length if e.parent else 0) < 14,
